@@ -1984,3 +1984,26 @@ def smallest_by_resolved_size(run, R="REJ"):
     static = [g.loc() for g in fam if '"name": "encoding_size"' in json.dumps(g.raw.get("blocks"))]
     run.check(reads_size >= 2 and not static, R, R + "|smallest|by-resolved-size", f.loc(), "the smallest encoding is chosen by the sizes of the resolved encodings (%d reader(s))" % reads_size,
               "resolve_encoding chooses the smallest candidate by the size the matcher pre-computed from the rule text (%s): that size is 0 whenever it is not statically computable (a production that calls a function), so a longer encoding wins over a shorter one" % (", ".join(static) or "readers of the resolved size not found"))
+
+
+def include_parses_every_time(run, R="INC"):
+    """`including a file splices its content at that point every time`: apart from the empty answer for a `#once` file that was
+    seen before, every tree that parse_and_resolve_includes hands back is the parse of the file's text read in this very call -
+    the success return lies behind the success edge of `parser::parse`.  A tree remembered from an earlier inclusion already has
+    that inclusion's nested includes (and their #once decisions) spliced in"""
+    fs = [f for f in run.prog.real_fns() if f.kind != "Closure" and re.search(r"asm::parser::parse_and_resolve_includes(::<.*>)?$", f.id)]
+    if not fs:
+        run.violation(R, R + "|include|parsed-every-time", "-", "mechanism not found: parse_and_resolve_includes")
+        return
+    f = fs[0]
+    parses = [(bi, t) for bi, t in f.calls() if (t.get("resolved") or "") == "asm::parser::parse"]
+    oks = [(bi, st) for bi, si, st in f.stmts() if st["k"] == "assign" and st["place"]["l"] == 0 and not st["place"]["p"] and st["rv"]["k"] == "agg" and st["rv"].get("variant") == "Ok"]
+    bad = []
+    for bi, st in oks:
+        d = _deep(f, st["rv"]["ops"][0], 6)
+        if re.search(r"nodes: Vec::new\(\)", d):
+            continue        # the empty tree of a #once file seen before
+        if not any(t.get("target") is not None and f.dominates(t["target"], bi) and pb != bi for pb, t in parses):
+            bad.append(f.loc(st["span"]))
+    run.check(len(parses) == 1 and bool(oks) and not bad, R, R + "|include|parsed-every-time", f.loc(), "every non-empty tree handed back by parse_and_resolve_includes was parsed in this call (%d success return(s))" % len(oks),
+              "parse_and_resolve_includes hands back a tree that was not parsed in this call (%s): a file included a second time brings along what its first inclusion spliced in - the content of a nested #once file is emitted again, or its symbols become duplicates" % (", ".join(bad) or "parse call not found"))
